@@ -282,6 +282,34 @@ func runC08(c *Ctx) {
 			}
 		}
 	}
+	// a silent (half-open) link with ResponseTimeout configured: the request must still take effect
+	silent := env.FaultSet{Silent: true, SilentDrop: true, OnlyTypes: map[byte]bool{env.SUBSCRIBE: true, env.UNSUBSCRIBE: true, env.PUBLISH: true}}
+	for _, x := range focus {
+		for _, y := range focus {
+			if x.kind == "p1" && y.kind == "p1" {
+				continue
+			}
+			reqs := []rcReq{{Kind: x.kind, Subs: x.subs, Phase: 'S'}, {Kind: y.kind, Subs: y.subs, Phase: 'S'}}
+			for i := range reqs {
+				if reqs[i].Kind == "p1" {
+					reqs[i].Tag = fmt.Sprintf("m%d", i+1)
+				}
+			}
+			var r *rcRun
+			cfgName := "keep=true response-timeout=2s silent-link"
+			sc := &vrt.Scenario{
+				Name:  fmt.Sprintf("C08/N2.F1.silent/%s", rcName(reqs)),
+				Bound: vrt.Budget{F: 1},
+				Cfg:   vrt.Config{Horizon: int64(600 * time.Second)},
+				Body: func() {
+					rcExecuteInto(&rcCfg{Reqs: reqs, Faults: silent, KeepSession: true, RespTimeout: 2 * time.Second}, &r)
+					c08Oracle(r, cfgName)
+				},
+				Observe: func() uint64 { return r.net.TraceHash() ^ vrt.HashString(r.broker.SubsString()) },
+			}
+			c.Explore(sc)
+		}
+	}
 	if n3 {
 		// quick tier: length 3 without publishes, default configuration only, one fault
 		for _, reqs := range c08Workloads(3, 'S') {
